@@ -349,7 +349,7 @@ class Check:
         cov.update(self.extra)
         ev = {
             "property_id": self.prop, "tier": self.tier, "seed": self.seed, "level": "proof",
-            "coverage": cov, "assumptions": self.assumptions,
+            "coverage": cov, "assumptions": self.assumptions or list(trusted_base),
             "wall_s": round(time.time() - self.t0, 2),
             "violations": len(unlisted),
             "known_findings_reproduced": sorted(reported_known),
